@@ -166,7 +166,11 @@ class VTuner:
         self._notify("pre_suggest", next_id)
         sugg = self.port.suggest(next_id)
         if sugg is None:
-            self.exhausted = True
+            # a real Tuner stops asking after the first None; with ``suggest_after_none`` = k the experiment is continued and the
+            # scheduler asked again up to k more times (someone driving the scheduler API directly)
+            self.none_seen = getattr(self, "none_seen", 0) + 1
+            if self.none_seen > self.p.get("suggest_after_none", 0):
+                self.exhausted = True
             self.events.append(("suggest", next_id, None, None))
             self._notify("post_suggest", next_id, None, None)
             return None
